@@ -274,7 +274,7 @@ def _resolve_cwd_token(root, token):
     co = root / "cond-out"
     pat = _re.compile(r"^[a-zA-Z0-9_-]+\.task\.[1-9][0-9]*$")
     dirs = sorted(str(p.relative_to(root)) for p in co.rglob("*") if p.is_dir() and not p.is_symlink()
-                  and pat.match(p.name) and "archive-tmp" not in p.parts) if co.is_dir() else []
+                  and pat.match(p.name) and "archive-tmp" not in p.parts and ".archive-tmp" not in p.parts) if co.is_dir() else []
     if not dirs:
         return ""
     d = dirs[int(k or 0) % len(dirs)]
